@@ -49,6 +49,18 @@ def cheap_gc():
         MM.gc = real
 
 
+class ScaledAux(torch.nn.Module):
+    """an additional model contributing `scale · (x·v)`: its gradient is `scale ×` the main model's (very different norms)"""
+
+    def __init__(self, d, scale):
+        super().__init__()
+        self.v = torch.nn.Parameter(torch.zeros(d, dtype=torch.float64))
+        self.scale = float(scale)
+
+    def forward(self, x):
+        return (x @ self.v) * self.scale
+
+
 _ENGINE_E = None
 
 
@@ -71,6 +83,12 @@ def engine_e():
             out = super()._do_iteration(data, loss_fns, regularizer_fns)
             self.trace.append((it, self.seen_opt.param_groups[0]["lr"], self.seen_sched.last_epoch))
             return out
+
+        def forward_function(self, data):
+            out = self.model(data["x"])
+            for m in self.models.values():          # any number of additional models
+                out = out + m(data["x"])
+            return out.reshape(-1, 1, 1), None
 
         def validation_loop(self, validation_datasets, loss_fns, experiment_directory, iter_idx, **kw):
             if validation_datasets:
@@ -99,12 +117,28 @@ def record_saves(events):
         CK.Checkpointer.save = inner
 
 
+def stale_backward(c, model, auxes, j):
+    """what user code does before `train()`: a backward pass of the toy loss on batch `j` (fills `.grad`)"""
+    rows = toy.batch_rows(c, j)
+    x = torch.tensor([[float(v) for v in r] for r, _ in rows], dtype=torch.float64)
+    y = torch.tensor([float(t) for _, t in rows], dtype=torch.float64)
+    out = model(x)
+    for a in auxes:
+        out = out + a(x)
+    (out - y).abs().sum().backward()
+
+
 def run_eprocess(expdir, c, *, total, resume=True, kill=None, kill_where="pre", swv=False, val_steps=10 ** 6,
-                 has_val=True, scaler=None):
-    """One process of the REAL `Engine.train`.  `c`: the toy configuration of props/c16.py (`ck` = checkpoint_steps)."""
+                 has_val=True, scaler=None, stale=None):
+    """One process of the REAL `Engine.train`.  `c`: the toy configuration of props/c16.py (`ck` = checkpoint_steps).
+    `stale`: batch index whose gradient already sits on the parameters when `train()` is entered."""
     model = toy._ToyModel(c["w0"])
-    aux = toy._ToyAux(c["d"]) if c.get("aux") else None
-    groups = [{"params": model.parameters()}] + ([{"params": aux.parameters()}] if aux is not None else [])
+    if c.get("aux_scales"):
+        auxes = [ScaledAux(c["d"], sc) for sc in c["aux_scales"]]
+    else:
+        auxes = [toy._ToyAux(c["d"])] if c.get("aux") else []
+    aux = auxes[0] if auxes else None
+    groups = [{"params": model.parameters()}] + [{"params": a.parameters()} for a in auxes]
     opt = c.get("opt", ("sgd", Fr(0)))
     if opt[0] == "sgd":
         o = torch.optim.SGD(groups, lr=float(c["base_lr"]), momentum=float(opt[1]))
@@ -115,15 +149,17 @@ def run_eprocess(expdir, c, *, total, resume=True, kill=None, kill_where="pre", 
     cfg.training.validation_steps = val_steps
     cfg.validation.batch_size = 2
     cfg.validation.crop = None
-    models = {"aux_model": aux} if aux is not None else {}
+    models = {("aux_model" if i == 0 else f"aux_model{i + 1}"): a for i, a in enumerate(auxes)}
     eng = engine_e()(cfg, model, "cpu", **models)
+    if stale is not None:
+        stale_backward(c, model, auxes, stale)
     eng.trace, eng.events, eng.seen_opt, eng.seen_sched = [], [], o, s
     eng.kill_at, eng.kill_where = kill, kill_where
     eng._scaler = scaler if scaler is not None else toy.counting_scaler()
     records = []
 
     def params():
-        return model.w.detach().clone().tolist() + (aux.v.detach().clone().tolist() if aux is not None else [])
+        return model.w.detach().clone().tolist() + [v for a in auxes for v in a.v.detach().clone().tolist()]
 
     class Recording(type(s)):
         def step(self, *a, **kw):
@@ -202,6 +238,8 @@ def gen_history(rng, k=None, force_mid_val=False):
     procs.append([T, -1, 0, int(rng.random() < 0.3), 1])
     if rng.random() < 0.2:
         procs[0][4] = 0                                       # resume=False on an empty directory
+    for pi, p in enumerate(procs):                            # gradients already on the parameters when train() is entered
+        p.append(T + 3 + pi if rng.random() < (0.5 if pi == 0 else 0.25) else -1)
     return c, (val_steps, has_val), procs
 
 
@@ -209,10 +247,10 @@ def run_history(c, val, procs):
     val_steps, has_val = val
     out = []
     with toy.scratch_dir() as d:
-        for total, kill, where, swv, res in procs:
+        for total, kill, where, swv, res, stale in procs:
             out.append(run_eprocess(d, c, total=total, resume=bool(res), kill=None if kill < 0 else kill,
                                     kill_where="pre" if where == 0 else "post", swv=bool(swv), val_steps=val_steps,
-                                    has_val=has_val))
+                                    has_val=has_val, stale=None if stale < 0 else stale))
     return out
 
 
@@ -280,7 +318,7 @@ def check_history(c, val, procs, outs):
     spans = []
     mis_resume = False
     for pi, (p, r) in enumerate(zip(procs, outs)):
-        total, kill, _, _, res = p
+        total, kill, _, _, res = p[:5]
         want_start = latest + 1 if (res and latest >= 0) else 0
         if len(r["trace"]) != len(r["records"]):
             yield ("iteration-without-training-backward", f"process {pi}: {len(r['records'])} completed iterations (scheduler "
@@ -351,3 +389,77 @@ def history_replay(c, val, procs, **kw):
     r = toy._cfg_replay(c, check="history", val=list(val), procs=[list(p) for p in procs])
     r.update(kw)
     return r
+
+
+# --------------------------------------------------------------------------------------------------
+# a second `train()` on the SAME engine / model / optimiser objects after a phase that ended inside a window
+def run_two_phase(c, t1, t2):
+    """phase 1: `num_iterations = t1` (t1 % k != 0 leaves gradients pending); phase 2: a fresh scheduler and experiment
+    directory, `num_iterations = t2`, resume=False.  Returns (parameters after phase 1, pending gradients there, records of
+    phase 2)."""
+    model = toy._ToyModel(c["w0"])
+    o = torch.optim.SGD([{"params": model.parameters()}], lr=float(c["base_lr"]), momentum=0.0)
+    eng = engine_e()(toy._make_cfg(t1, c["k"], 10 ** 6, c["bs"], 0), model, "cpu")
+    eng._scaler = toy.counting_scaler()
+    out = []
+    for total in (t1, t2):
+        eng.cfg.training.num_iterations = total
+        s = toy.make_scheduler(o, c["sched"])
+        eng.trace, eng.events, eng.seen_opt, eng.seen_sched = [], [], o, s
+        records = []
+
+        class Recording(type(s)):
+            def step(self, *a, _records=records, **kw):
+                r = super().step(*a, **kw)
+                _records.append((model.w.detach().clone().tolist(), o.param_groups[0]["lr"]))
+                return r
+
+        s.__class__ = Recording
+        try:
+            with toy.scratch_dir() as d, cheap_gc():
+                eng.train(o, s, [toy._ToyDS(c["X"], c["y"])], pathlib.Path(d), resume=False, num_workers=0)
+        finally:
+            signal.signal(signal.SIGINT, signal.default_int_handler)
+        pend = None if model.w.grad is None else model.w.grad.detach().clone().tolist()
+        out.append({"records": records, "w": model.w.detach().clone().tolist(), "pending": pend})
+    return out
+
+
+# --------------------------------------------------------------------------------------------------
+# clipping x additional models: the reference clips the window mean over ALL optimised parameters against its global norm
+def clip_aux_reference(c, scales, clip):
+    """float64 reference (sqrt): returns (records, clipping active at some step?, per-module clipping would differ?) or None
+    when a residual sits next to the kink of |·|"""
+    d = c["d"]
+    w = torch.nn.Parameter(torch.tensor([float(v) for v in c["w0"]], dtype=torch.float64))
+    vs = [torch.nn.Parameter(torch.zeros(d, dtype=torch.float64)) for _ in scales]
+    o = torch.optim.SGD([w] + vs, lr=float(c["base_lr"]), momentum=float(c["opt"][1]))
+    out, window, active, differs = [], [], False, False
+    for it in range(c["T"]):
+        rows = toy.batch_rows(c, it)
+        xb = torch.tensor([[float(v) for v in x] for x, _ in rows], dtype=torch.float64)
+        yb = torch.tensor([float(y) for _, y in rows], dtype=torch.float64)
+        res = xb @ w.detach() - yb
+        for sc, v in zip(scales, vs):
+            res = res + (xb @ v.detach()) * float(sc)
+        near = res.abs() < 1e-9
+        if bool((near & (res != 0)).any()):
+            return None
+        g = (torch.sign(res)[:, None] * xb).sum(0)
+        window.append(g)
+        if (it + 1) % c["k"] == 0:
+            mean = torch.stack(window).sum(0) / c["k"]
+            window = []
+            parts = [mean] + [mean * float(sc) for sc in scales]
+            norm = float(torch.cat(parts).norm(2))
+            coef = min(1.0, clip / (norm + 1e-6)) if clip > 0 else 1.0
+            active |= coef < 1.0
+            differs |= coef < 1.0 or any(float(p.norm(2)) > clip > 0 for p in parts)
+            for grp in o.param_groups:
+                grp["lr"] = float(toy.lr_closed_form(c["sched"], it))
+            for p, gp in zip([w] + vs, parts):
+                p.grad = (gp * coef).clone()
+            o.step()
+        out.append((w.detach().clone().tolist() + [x for v in vs for x in v.detach().clone().tolist()],
+                    float(toy.lr_closed_form(c["sched"], it + 1))))
+    return out, active, differs
